@@ -1132,6 +1132,28 @@ def overlap_engine(pid, spec, tier, seed, workdir, res):
                                               payload=dict(experiment=line.strip())))
 
 
+def realclock_engine(pid, spec, tier, seed, workdir, res):
+    """C01: saturated ages with the real clock (between two clock readings of one RoundTrip time passes)."""
+    known = load_known()
+    out = os.path.join(workdir, 'realclock')
+    os.makedirs(out, exist_ok=True)
+    rc, log = run_harness('TestRealClock', {}, out, timeout=900)
+    lp = os.path.join(out, 'realclock.txt')
+    if rc != 0 or not os.path.exists(lp):
+        res['errors'].append('real-clock experiment failed to run: ' + log[-800:])
+        return
+    for line in open(lp):
+        if not line.startswith('REALCLOCK'):
+            continue
+        res['evaluations'] += 1
+        res['nontrivial'].add(hashlib.sha1(line.encode()).hexdigest())
+        v = line.split()[-1]
+        res['distribution']['realclock:' + v] = res['distribution'].get('realclock:' + v, 0) + 1
+        if v == 'BAD' and not known_open(pid, 'C01:saturated-age-served', known):
+            res['violations'].append(dict(kind='monitor', code='C01:saturated-age-served', case='realclock',
+                                          payload=dict(experiment=line.strip(), how='harness/realclock_test.go TestRealClock: GET (stored with a saturating Age), GET; real clock, memcache')))
+
+
 def build_race_harness():
     with Lock('harness-race'):
         out_bin = os.path.join(BUILD, 'harness.race.test')
